@@ -39,9 +39,26 @@ ASSUMPTIONS = ["std::to_string(int) is the decimal representation with a leading
                "on a platform where long double is double the repair is a no-op and the old double range applies. "
                "The other families (single values, Export_Function, size-targeted headers, In_Units with rounding) keep the 2^-40 margin by construction",
                "round-trip bound: half a unit of the sixth significant digit of x/u + 2^-50 |x/u| (double division and multiplication); Log_Space abscissae of Export_Function: 2^-36 (exp/log)",
+               "pending repairs (tolerated while the PENDING_* constants are True, strict with LP_ASSUME_FIXED): P10 Import_Table reshapes a ragged file and counts trailing blank lines as rows "
+               "(/tmp/fixprop-C20-2); P10B rows of unequal length whose total number of entries fills the rows are still reshaped after that repair (4+2 entries -> 2 x 3; needs a line-wise reader); "
+               "ROUND0 In_Units(x,u,true,0) = inf (/tmp/fixprop-C17-2)",
                "In_Units undo: 3 eps; derived-unit identities and definitions on a build's own constants: 4 eps in every build"]
 TRUSTED = ["translators/units.py (regenerates lean/LpModel/C20/Generated.lean from src/Natural_Units.cpp before every lake build; cross-checked by the values read in the separately compiled builds)",
            "mpmath for sqrt / pi / non-integer pow on the comparison side"]
+
+# Pending repairs proposed to the integrator (True = the behaviour of /repo HEAD is tolerated and compared with the model of the code as
+# it is; LP_ASSUME_FIXED=P10,... switches the strict clause and the mirrored model on for a rehearsal / after the patch is applied)
+PENDING_P10 = True      # Import_Table reshapes a ragged file silently; trailing blank lines count as rows (/tmp/fixprop-C20-2)
+PENDING_P10B = True     # residual of P10: rows of unequal length whose TOTAL number of entries still fills the rows (4+2 entries read as 2 x 3);
+                        # the proposed repair tests the total only - a line-wise reader would be needed (reported, no patch)
+
+
+PENDING_ROUND0 = True   # In_Units(x, u, true, 0) = inf: Round accepts zero significant digits (/tmp/fixprop-C17-2)
+
+
+def pending(item):
+    return {"P10": PENDING_P10, "P10B": PENDING_P10B, "ROUND0": PENDING_ROUND0}[item] and item not in os.environ.get("LP_ASSUME_FIXED", "").split(",")
+
 
 K_VAL = 64          # relative tolerance (ulps) for constants and In_Units/Import values
 BUILDS_ALL = [("g++", "-O2"), ("clang++", "-O0"), ("g++", "-O0"), ("clang++", "-O2")]
@@ -136,6 +153,61 @@ def grid_expected(lo, hi, n, logarithmic):
 
 
 FUNC_CLAUSE = "Export_Function/Import_Table round trip fails on a degenerate grid"
+
+
+def import_shape_oracle(op, a, impl, ctx):
+    """C10/C20: a file whose rows (lines after the ignored ones, up to the last non-blank line) do not have the same number of entries is
+    ragged: Import_Table must terminate with a diagnostic, not reshape it; blank lines at the end are not rows.
+    Strict only when the repair P10 is assumed applied; until then the behaviour of HEAD is compared with its model and counted."""
+    text = unhex(a[0])
+    ign = int(a[-1])
+    lines = text.split("\n")
+    if lines and lines[-1] == "":
+        lines = lines[:-1]
+    data = lines[ign:]
+    while data and data[-1].strip(" \t\r\v\f") == "":
+        data = data[:-1]
+    if not data:
+        return []
+    rowtoks = [l.split() for l in data]
+    def num(t):
+        try:
+            float(t)
+            return not any(ch in t.lower() for ch in "nixp_")
+        except ValueError:
+            return False
+    if not all(num(t) for row in rowtoks for t in row):
+        return []          # a token that is not a number stops the reader: judged by the model only
+    counts = [len(r) for r in rowtoks]
+    ragged_total = sum(counts) % len(counts) != 0
+    ragged_lines = len(set(counts)) > 1 and not ragged_total
+    trailing_blank = len(lines[ign:]) > len(data)
+    if ragged_lines:
+        if pending("P10B"):
+            bump(ctx, "pending P10B: unequal rows whose total fills the rows (reshaped)")
+            return []
+        if tag(impl) != "err":
+            return [fail("prop", "Import_Table accepts a ragged file (rows of unequal length) instead of terminating with a diagnostic",
+                         "rows of %s entries: %s" % (counts, impl[:120]))]
+        return []
+    if not (ragged_total or trailing_blank):
+        return []
+    if pending("P10"):
+        bump(ctx, "pending P10: ragged file / trailing blank lines (HEAD reshapes)")
+        return []
+    if ragged_total and tag(impl) != "err":
+        return [fail("prop", "Import_Table accepts a ragged file (rows of unequal length) instead of terminating with a diagnostic",
+                     "rows of %s entries: %s" % (counts, impl[:120]))]
+    if not ragged_total and trailing_blank:
+        us_, _ = read_list(a[1:], fl)
+        if us_ and len(us_) != counts[0]:
+            return []          # dimension-count mismatch: the diagnostic is the right answer (judged by the model)
+        if tag(impl) != "ok":
+            return [fail("prop", "Import_Table does not read a rectangular file that ends with blank lines", impl[:120])]
+        ri, _ = read_table(toks(impl), fl)
+        if [len(r) for r in ri] != counts:
+            return [fail("prop", "blank lines at the end of the file change the shape of the imported table", "%d x %d -> %s" % (len(counts), counts[0], [len(r) for r in ri]))]
+    return []
 
 
 def func_rt_oracle(a, impl=None):
@@ -488,9 +560,47 @@ def generate(tier, seed, ctx):
         elif kind == 6:
             text = text.replace(sep, sep + "\n", 1) if c > 1 else text   # a row broken over two lines
         us = [] if rng.random() < 0.5 else [gen_unit(rng) for _ in range(c + (1 if rng.random() < 0.15 else 0))]
-        R.append("c20.imptable %s %s %d" % (enhex(text), lst(us), ign))
+        R.append("%s %s %s %d" % ("c20.imptable" if pending("P10") else "c20.imptable2", enhex(text), lst(us), ign))
         R.append("c20.implist %s %s %d" % (enhex(text), hx(gen_unit(rng)), ign))
         R.append("c20.lines %s" % enhex(text))
+    # hand-written files another tool could have produced: ragged rows, trailing blank lines, a blank line between rows, a trailer
+    imp_op = "c20.imptable" if pending("P10") else "c20.imptable2"
+    for k in range(90 if thorough else 30):
+        r, c = rng.randint(2, 6), rng.randint(2, 5)
+        rows = [[str(rng.randint(-99, 99)) if rng.random() < 0.7 else fmt_g(gen_safe(rng, 1.0, 7)) for _ in range(c)] for _ in range(r)]
+        h = rng.choice(["", "# x y", "# a\n# b"])
+        hl = 0 if not h else h.count("\n") + 1
+        kind = k % 6
+        if kind == 0:      # last row short
+            rows[-1] = rows[-1][:rng.randint(1, c - 1)]
+        elif kind == 1:    # a middle / first row long or short
+            i = rng.randrange(r - 1)
+            rows[i] = rows[i] + ["7"] if rng.random() < 0.5 else rows[i][:-1]
+        elif kind == 2:    # rectangular, trailing blank lines
+            pass
+        elif kind == 3:    # rectangular, blank line between rows
+            pass
+        elif kind == 4:    # rectangular with trailing white-space-only lines and a final newline
+            pass
+        body = "\n".join(" ".join(row) for row in rows)
+        if kind == 2:
+            body += "\n" * rng.randint(2, 4)
+        elif kind == 3:
+            parts = body.split("\n")
+            j = rng.randrange(1, len(parts))
+            body = "\n".join(parts[:j] + [""] + parts[j:]) + rng.choice(["", "\n"])
+        elif kind == 4:
+            body += "\n" + rng.choice([" ", "\t", " \t "]) + "\n" + rng.choice(["", " \n"])
+        elif kind == 5:
+            body += "\n# end of data\n"
+        else:
+            body += rng.choice(["", "\n"])
+        text = (h + "\n" if h else "") + body
+        us = [] if rng.random() < 0.5 else [1.0] * (c if kind != 0 or rng.random() < 0.5 else len(rows[-1]))
+        R.append("%s %s %s %d" % (imp_op, enhex(text), lst(us), hl))
+    for (text, us) in [("1 2 3\n4 5 6\n7 8\n", [1.0, 1.0]), ("1 2 3\n4 5 6\n7 8\n", []), ("1 2\n3 4\n\n\n", []), ("1 2\n3 4\n\n\n", [1.0, 1.0]),
+                       ("1 2\n3 4\n", [1.0, 1.0]), ("1 2\n\n3 4\n", []), ("1\n2 3\n", []), ("1 2 3 4\n5 6\n", [1.0, 1.0, 1.0])]:
+        R.append("%s %s %s 0" % (imp_op, enhex(text), lst(us)))
     for t in ["", "\n", "a", "a\n", "a\nb", "a\n\nb\n", "\n\n\n", "1 2\n3 4", "1 2\n3 4\n", " \n \n"]:
         R.append("c20.lines %s" % enhex(t))
     # --- In_Units overloads ----------------------------------------------------------------------------------------
@@ -557,6 +667,10 @@ def generate(tier, seed, ctx):
             R.append("c20.inunitsT %s %s 1 %d" % (tbl([[rv(u) for _ in range(3)] for _ in range(2)]), hx(u), d))
             R.append("c20.inunitsM %s %s 1 %d" % (tbl([[rv(u) for _ in range(3)] for _ in range(2)]), hx(u), d))
             R.append("c20.inunitsC %s %s 1 %d" % (tbl([[rv(us2[j]) for j in range(3)] for _ in range(2)]), lst(us2), d))
+    for x in (3.0, -0.25, 1e30):      # zero significant digits with rounding: meaningless (the property's Round has d = 1..7)
+        R.append("c20.inunits %s %s 1 0" % (hx(x), hx(2.0)))
+    R.append("c20.inunitsL %s %s 1 0" % (lst([1.5, 2.5]), hx(2.0)))
+    R.append("c20.inunitsM %s %s 1 0" % (tbl([[1.5, 2.5]]), hx(2.0)))
     for (x, d) in [(2.5, 1), (3.5, 1), (-2.5, 1), (1.25, 2), (0.0, 3), (7.0, 1), (1000.0, 2), (999.0, 2), (9.5, 1), (99.5, 2)]:
         R.append("c20.inunits %s %s 1 %d" % (hx(x), hx(1.0), d))
     # --- unit constants and identities ------------------------------------------------------------------------------
@@ -889,6 +1003,17 @@ def compare(rq, impl, model, ctx):
         return compare_units(op, a, model, ctx)
     if op in COVER_OPS:
         return compare_cover(op, a, rq, impl, model, ctx)
+    if op.startswith("c20.inunits") and a[-1] == "0" and a[-2] == "1":
+        if pending("ROUND0"):
+            bump(ctx, "pending ROUND0: In_Units(round, 0 digits)")
+            return []
+        if tag(impl) != "err":
+            return [fail("prop", "In_Units with rounding to zero significant digits does not stop with a diagnostic", impl[:100])]
+        return []
+    if op in ("c20.imptable", "c20.imptable2"):
+        pre = import_shape_oracle(op, a, impl, ctx)
+        if pre:
+            return pre
     if op in ("c20.rtfuncL", "c20.rtfuncG"):
         if tag(model) == "undef":
             return []
@@ -987,6 +1112,9 @@ def compare(rq, impl, model, ctx):
                 out.append(fail("prop", "Import_Table of an exported table with the number of header lines written stops or crashes" +
                                 (" (table without rows: header only / empty file)" if len(t) == 0 else ""), oi))
                 return relabel_oor(out, oor)
+            elif not pending("P10") and oi == "err" and t and sum(len(r) for r in t) % max(1, len([r for r in t if r])) != 0:
+                bump(ctx, "ragged export read back: diagnostic (P10 applied)")
+                return out
             elif im_m[0] == "err" and oi != "err":
                 out.append(fail("prop", "meaningless import did not stop with a diagnostic", oi))
             elif im_m[0] not in ("err", "undef"):
@@ -1024,7 +1152,7 @@ def compare(rq, impl, model, ctx):
         lm, _ = read_list(tm, fr)
         cmp_values([li], [lm], "Import_List", out)
         return out
-    if op == "c20.imptable":
+    if op in ("c20.imptable", "c20.imptable2"):
         ri, _ = read_table(ti, fl)
         rm, _ = read_table(tm, fr)
         cmp_values(ri, rm, "Import_Table", out)
